@@ -289,6 +289,13 @@ def run_sharded(exe, cases, timeout=3000, extra_env=None):
     """cases: list of list[int].  Returns list of list[int] (same order)."""
     if not cases:
         return []
+    save = os.environ.get("RRTK_VERIF_SAVE_CASES")
+    if save and "model_driver" not in exe:
+        # bin/coverage: keep every case sent to a harness build, to replay it on an instrumented build
+        os.makedirs(save, exist_ok=True)
+        with open(os.path.join(save, "%d_%d.txt" % (os.getpid(), len(os.listdir(save)))), "w") as f:
+            f.write("# %s\n" % exe)
+            f.write("\n".join(" ".join(map(str, c)) for c in cases) + "\n")
     n = max(1, min(NCPU, len(cases) // 200 + 1))
     shards = [cases[i::n] for i in range(n)]
     procs = []
@@ -505,6 +512,13 @@ class Check:
         return 0
 
 
+HARNESS_MARKERS = {
+    96: "update() of a stream / getter whose update must do nothing returned an error",
+    95: "get() after update() differs from get() before it on a stateless stream / getter",
+    94: "two ways of reading the same object disagree (TryFrom<TerminalData> for Datum<..>, or a Reference read through borrow / borrow_mut / its unsafe inner handle)",
+}
+
+
 def correspondence(chk, cases, tags, exe, drv, okb=None, nontrivial=None, describe=None, max_report=5, pow_env=None):
     """Run cases through harness and model; record disagreements as violations.
     okb(case, impl_out, model_out) -> (ok, why) decides whether the *property* fails on the implementation."""
@@ -523,7 +537,12 @@ def correspondence(chk, cases, tags, exe, drv, okb=None, nontrivial=None, descri
             chk._distinct.add((tags[i], h))
             chk.cov["distinct_nontrivial"] += 1
         prop_ok, why = (True, "")
-        if okb:
+        if io != mo:
+            # deviation markers emitted by the harness itself (never by the model): a side check inside the harness failed
+            k = next((j for j in range(min(len(io), len(mo))) if io[j] != mo[j]), min(len(io), len(mo)))
+            if k < len(io) and isinstance(io[k], int) and io[k] in HARNESS_MARKERS:
+                prop_ok, why = False, HARNESS_MARKERS[io[k]]
+        if okb and prop_ok:
             try:
                 prop_ok, why = okb(c, io, mo)
             except Exception as ex:  # malformed implementation output
